@@ -133,7 +133,7 @@ func SavePlan(path string, p *Plan) error {
 // ---------- universes ----------
 
 type Universe struct {
-	Depts, DeptNames, People, Names, Nicks, Roles, Badges, Notes, Tickets, Groups, BadgeNos, Memos, TagKeys, MemoIds []string
+	Depts, DeptNames, People, Names, Nicks, Roles, Badges, Notes, Tickets, Groups, BadgeNos, Memos, TagKeys, MemoIds, Reviews, Folders []string
 }
 
 // Ids and values are disjoint alphabets so that "the id occurs nowhere" is decidable by byte search, with two
@@ -151,9 +151,11 @@ var U = Universe{
 	Badges:    []string{"b1", "b2", "b3", "p2"},
 	Notes:     []string{"o1", "o2", "o3", "o4", "o5", "zn", "p3"},
 	Tickets:   []string{"t1", "t2", "zt"},
+	Reviews:   []string{"v1", "v2", "v3"},
+	Folders:   []string{"f1", "f2", "f3", "f4", "f5", "f6", "f7"},
 	Groups:    []string{"g1", "g2", "g3", "g1a", `g"4`},
 	BadgeNos:  []string{"bn1", "bn2", "bn3"},
-	Memos:     []string{"m1", "m2"},
+	Memos:     []string{"m1", "m2", "m3", "m4"},
 	TagKeys:   []string{"tk1", "tk2"},
 	MemoIds:   []string{"e1", "e2", "e3", "e4", "e5"},
 }
@@ -166,7 +168,7 @@ func sharedId(id string) bool { return id == "p2" || id == "p3" }
 
 func (u Universe) ByStore() map[string][]string {
 	return map[string][]string{StDepts: u.Depts, StPeople: u.People, StStaff: u.People, StPX: u.People, StBadges: u.Badges,
-		StNotes: u.Notes, StTickets: u.Tickets, StGroups: u.Groups, StMemos: u.MemoIds}
+		StNotes: u.Notes, StTickets: u.Tickets, StGroups: u.Groups, StMemos: u.MemoIds, StReviews: u.Reviews, StFolders: u.Folders}
 }
 
 // ---------- generator ----------
@@ -342,7 +344,7 @@ func (g *gen) genOp() Op {
 	sysEntity := g.r.IntN(6) == 0
 	pickStore := func() string {
 		// people family weighted up: it carries most of the wiring
-		return pick(g.r, []string{StDepts, StPeople, StPeople, StPeople, StStaff, StStaff, StPX, StBadges, StNotes, StTickets, StGroups, StMemos})
+		return pick(g.r, []string{StDepts, StPeople, StPeople, StPeople, StStaff, StStaff, StPX, StBadges, StNotes, StTickets, StGroups, StMemos, StReviews, StFolders, StFolders})
 	}
 	existingIn := func(store string) []string {
 		switch store {
@@ -365,6 +367,10 @@ func (g *gen) genOp() Op {
 			return keysOf(sh.Notes)
 		case StTickets:
 			return keysOf(sh.Tickets)
+		case StReviews:
+			return keysOf(sh.Reviews)
+		case StFolders:
+			return keysOf(sh.Folders)
 		case StGroups:
 			return keysOf(sh.Groups)
 		case StMemos:
@@ -393,6 +399,31 @@ func (g *gen) genOp() Op {
 			return g.strp(pick(g.r, []string{"zn", "zt"}))
 		}
 		return g.strp(pick(g.r, g.people()))
+	}
+	refStaff := func() *string {
+		var ss []string
+		for id, p := range sh.People {
+			if p.HasStaff {
+				ss = append(ss, id)
+			}
+		}
+		sort.Strings(ss)
+		if g.valid() && len(ss) > 0 {
+			return g.strp(pick(g.r, ss))
+		}
+		if g.r.IntN(6) == 0 {
+			return nil
+		}
+		return refPerson() // often a person without staff data: not an entity of the referenced store
+	}
+	refFolder := func() *string {
+		if fs := keysOf(sh.Folders); len(fs) > 0 && g.r.IntN(5) != 0 {
+			return g.strp(pick(g.r, fs))
+		}
+		if g.r.IntN(3) == 0 {
+			return g.strp(pick(g.r, U.Folders))
+		}
+		return nil
 	}
 	refGroup := func() *string {
 		if gs := keysOf(sh.Groups); g.valid() && len(gs) > 0 {
@@ -441,7 +472,20 @@ func (g *gen) genOp() Op {
 				}
 			}
 			if op.S == StPX {
-				op.Memo = pick(g.r, U.Memos)
+				var used []string
+				for _, p := range sh.People {
+					if p.HasPX {
+						used = append(used, p.Memo)
+					}
+				}
+				if free := absent(U.Memos, used); g.valid() && len(free) > 0 {
+					op.Memo = pick(g.r, free)
+				} else {
+					op.Memo = pick(g.r, U.Memos)
+				}
+				if g.r.IntN(6) == 0 {
+					op.Memo = "" // the index is nullable: any number of entities without a memo
+				}
 			}
 		case StBadges:
 			op.Ref = refPerson()
@@ -455,6 +499,12 @@ func (g *gen) genOp() Op {
 			if g.r.IntN(6) != 0 {
 				op.Ref = refGroup()
 			}
+		case StReviews:
+			if g.r.IntN(6) != 0 {
+				op.Ref = refStaff()
+			}
+		case StFolders:
+			op.Ref = refFolder()
 		}
 	case "update":
 		op.K, op.S = "update", pickStore()
@@ -489,7 +539,10 @@ func (g *gen) genOp() Op {
 				fields = append(append([]string{}, fields...), "level", "badgeNo")
 			}
 			if op.S == StPX {
-				op.Memo = pick(g.r, U.Memos)
+				op.Memo = pick(g.r, append([]string{""}, U.Memos...))
+				if p, ok := sh.People[op.Id]; ok && p.HasPX && g.r.IntN(2) == 0 {
+					op.Memo = p.Memo
+				}
 				fields = append(append([]string{}, fields...), "memo")
 			}
 			g.checker(&op, fields)
@@ -507,6 +560,12 @@ func (g *gen) genOp() Op {
 		case StMemos:
 			op.Ref = refGroup()
 			g.checker(&op, []string{"topic"})
+		case StReviews:
+			op.Ref = refStaff()
+			g.checker(&op, []string{"reviewer"})
+		case StFolders:
+			op.Ref = refFolder()
+			g.checker(&op, []string{"parent"})
 		}
 	case "delete":
 		op.K, op.S = "delete", pickStore()
@@ -530,10 +589,13 @@ func (g *gen) genOp() Op {
 			}
 		}
 	case "deleteWhere":
-		op.K, op.S = "deleteWhere", pick(g.r, []string{StNotes, StTickets, StBadges, StPeople, StPeople, StStaff, StMemos})
+		op.K, op.S = "deleteWhere", pick(g.r, []string{StNotes, StTickets, StBadges, StPeople, StPeople, StStaff, StMemos, StReviews, StFolders})
 		op.Q = pick(g.r, U.People[:len(U.People)-nHostilePeople]) // query text only from values the existing suite pins
 		if op.S == StMemos {
 			op.Q = pick(g.r, U.Groups[:len(U.Groups)-1])
+		}
+		if op.S == StFolders {
+			op.Q = pick(g.r, U.Folders)
 		}
 		if op.S == StPeople || op.S == StStaff {
 			op.Q = pick(g.r, U.Names)
@@ -630,7 +692,7 @@ func (g *gen) f6() Fault {
 	}
 	switch site {
 	case "put":
-		keys = append(keys, "name", "nick", "dept", "mentor", "createdAt", "updatedAt", "isSystem", "owner", "about", "assignee", "topic", "level", "badgeNo", "memo", "tk1", "tk2")
+		keys = append(keys, "name", "nick", "dept", "mentor", "createdAt", "updatedAt", "isSystem", "owner", "about", "assignee", "topic", "reviewer", "parent", "level", "badgeNo", "memo", "tka", "tkb", "tk3")
 		keys = append(keys, U.Names...)
 		keys = append(keys, U.DeptNames...)
 		keys = append(keys, U.BadgeNos...)
@@ -662,6 +724,8 @@ func (g *gen) f6() Fault {
 		keys = append(keys, U.Badges...)
 		keys = append(keys, U.Notes...)
 		keys = append(keys, U.Tickets...)
+		keys = append(keys, U.Reviews...)
+		keys = append(keys, U.Folders...)
 	case "cursorDelete":
 		typed(g.people())
 	}
@@ -707,6 +771,34 @@ func (g *gen) prologue() TxPlan {
 // cascadeBurst: several referrers of one person are created and the person is deleted in the same transaction
 // (cascades and restrict checks then run over buckets already modified in this transaction).
 func (g *gen) cascadeBurst() (TxPlan, bool) {
+	if g.r.IntN(3) == 0 {
+		// a folder tree (built in this transaction on top of whatever exists) whose root is deleted: the cascade
+		// re-enters the same constraint once per level, siblings with children of their own included
+		free := absent(U.Folders, keysOf(g.shadow.Folders))
+		if len(free) >= 3 {
+			g.r.Shuffle(len(free), func(i, j int) { free[i], free[j] = free[j], free[i] })
+			tx := TxPlan{Mode: "update"}
+			root := free[0]
+			tx.Ops = append(tx.Ops, Op{K: "create", S: StFolders, Id: root})
+			made := []string{root}
+			for _, id := range free[1:] {
+				// mostly a bushy tree: children of the root, grandchildren below the first children
+				par := made[g.r.IntN(len(made))]
+				if len(made) <= 2 {
+					par = root
+				}
+				tx.Ops = append(tx.Ops, Op{K: "create", S: StFolders, Id: id, Ref: g.strp(par)})
+				made = append(made, id)
+			}
+			if g.r.IntN(4) != 0 {
+				tx.Ops = append(tx.Ops, Op{K: "delete", S: StFolders, Id: made[g.r.IntN(2)]})
+			}
+			return tx, true
+		}
+		if ex := keysOf(g.shadow.Folders); len(ex) > 0 {
+			return TxPlan{Mode: "update", Ops: []Op{{K: "delete", S: StFolders, Id: pick(g.r, ex)}}}, true
+		}
+	}
 	if gs := keysOf(g.shadow.Groups); len(gs) > 0 && g.r.IntN(2) == 0 {
 		// a group and the memos about it: the cascade target has no child stores, so the cascade runs exactly once
 		grp := pick(g.r, gs)
@@ -770,6 +862,8 @@ func keysOfAny(m *Model, store string) []string {
 		return keysOf(m.Badges)
 	case StTickets:
 		return keysOf(m.Tickets)
+	case StReviews:
+		return keysOf(m.Reviews)
 	}
 	return nil
 }
@@ -1011,6 +1105,9 @@ func GenPlan(profile, prop string, seed uint64) *Plan {
 	}
 	g := &gen{r: r, cfg: cfg, shadow: NewModel()}
 	p := &Plan{Profile: profile, Prop: prop, Seed: seed, Listeners: cfg.Listeners}
+	if (prop == "C16" || profile == "tx") && r.IntN(14) == 0 {
+		return g.sysBatchPlan(p)
+	}
 	for t := 0; t < cfg.Tasks; t++ {
 		tp := TaskPlan{Name: fmt.Sprintf("T%d", t+1)}
 		if t == 0 {
@@ -1105,7 +1202,7 @@ func genConcurrent(profile, prop string, seed uint64, r *rand.Rand) *Plan {
 			kind := pick(r, []string{"file", "file", "stream"})
 			snap := TxPlan{Mode: "snapshot", Arg: kind, N: -1}
 			if kind == "stream" && r.IntN(5) == 0 {
-				snap.N = r.IntN(40000) // F11: writer fails after N bytes
+				snap.N = r.IntN(3) // F11: this write call of the stream fails
 			}
 			if kind == "file" {
 				// a path of its own, the same path as other snapshots of this run (overwritten), or a DATE / TIME template
@@ -1152,5 +1249,45 @@ func genConcurrent(profile, prop string, seed uint64, r *rand.Rand) *Plan {
 		}
 	}
 	p.MaxSteps = 120 + 16*p.NumOps()
+	return p
+}
+
+// sysBatchPlan: a client that works through Db.Batch on a SYSTEM context (changing a system entity) while another
+// client's Batch calls fail: when both land in one bbolt batch the first client's function is executed again, and
+// must still run as system.
+func (g *gen) sysBatchPlan(p *Plan) *Plan {
+	t1 := TaskPlan{Name: "T1"}
+	t1.Txs = append(t1.Txs, g.prologue())
+	dept := keysOf(g.shadow.Depts)[0]
+	id := pick(g.r, U.People[:4])
+	mk := Op{K: "create", S: pick(g.r, []string{StPeople, StStaff, StPX}), Id: id, Name: "n1", Dept: dept, IsSys: true, Sys: true, BadgeNo: "bn1", Memo: "m1"}
+	t1.Txs = append(t1.Txs, TxPlan{Mode: "update", Ops: []Op{mk}})
+	g.shadow.Apply(mk, 0)
+	n := 2 + g.r.IntN(4)
+	for i := 0; i < n; i++ {
+		up := Op{K: "update", S: mk.S, Id: id, Name: U.Names[(i+1)%len(U.Names)], Dept: dept, IsSys: true, Sys: true, BadgeNo: "bn1", Memo: "m1"}
+		if g.r.IntN(3) == 0 {
+			up.HasChk, up.Chk = true, []string{"name"}
+		}
+		t1.Txs = append(t1.Txs, TxPlan{Mode: "batch", Ctx: "sys", Ops: []Op{up}})
+	}
+	if g.r.IntN(2) == 0 {
+		t1.Txs = append(t1.Txs, TxPlan{Mode: "batch", Ctx: "sys", Ops: []Op{{K: "delete", S: mk.S, Id: id, Sys: true}}})
+	}
+	p.Tasks = append(p.Tasks, t1)
+	nt := 1 + g.r.IntN(2)
+	for k := 0; k < nt; k++ {
+		t := TaskPlan{Name: fmt.Sprintf("T%d", k+2)}
+		m := 2 + g.r.IntN(4)
+		for i := 0; i < m; i++ {
+			tx := TxPlan{Mode: "batch", Ops: []Op{{K: "update", S: StGroups, Id: "no-such-group"}}}
+			if g.r.IntN(3) == 0 {
+				tx = TxPlan{Mode: "batch", Ops: []Op{{K: "create", S: StGroups, Id: pick(g.r, U.Groups[:3])}}, Faults: []Fault{{Kind: "F1", At: 1}}}
+			}
+			t.Txs = append(t.Txs, tx)
+		}
+		p.Tasks = append(p.Tasks, t)
+	}
+	p.MaxSteps = 80 + 16*p.NumOps()
 	return p
 }
